@@ -383,3 +383,118 @@ EXECUTORS.update({"repeat": ex_repeat, "repeat2": ex_repeat2, "truncate": ex_tru
                   "slice_index": ex_slice_index, "truncate_index": ex_truncate_index, "trend": ex_trend,
                   "linear_trend": ex_linear_trend, "normalize": ex_normalize, "shiftscale": ex_shiftscale,
                   "interp": ex_interp, "interp_env": ex_interp_env, "winterp": ex_winterp})
+
+
+# ---------------------------------------------------------------------------------------------- C04-C07 recreate from average
+import struct  # noqa: E402
+import traffic_weaver.rfa as rfa_mod  # noqa: E402
+
+RFA_CLASSES = {"PiecewiseConstant": "PiecewiseConstantRFA", "LinearFixed": "LinearFixedRFA", "LinearAdaptive": "LinearAdaptiveRFA",
+               "ExpFixed": "ExpFixedRFA", "ExpAdaptive": "ExpAdaptiveRFA", "CubicSpline": "CubicSplineRFA"}
+
+
+def bits3(v):
+    b = struct.unpack("<Q", struct.pack("<d", float(v)))[0]
+    return [b >> 44, (b >> 22) & 0x3FFFFF, b & 0x3FFFFF]
+
+
+def rfa_kwargs(c):
+    s = c["strategy"]
+    kw = {}
+    if s in ("LinearFixed", "LinearAdaptive", "ExpFixed", "ExpAdaptive"):
+        if c["a"] != -1:
+            kw["a"] = c["a"]
+        else:
+            kw["alpha"] = fl(c["alpha"])
+    if s in ("ExpFixed", "ExpAdaptive"):
+        kw["beta"] = fl(c["beta"])
+        kw["exp"] = c["exp_f"] if "exp_f" in c else fl(c["exp"])
+    if s in ("LinearAdaptive", "ExpAdaptive"):
+        kw["adaptive_smooth"] = c["smooth_f"] if "smooth_f" in c else c["smooth"]
+    return kw
+
+
+def rfa_run(c, x, y):
+    cls = getattr(rfa_mod, RFA_CLASSES[c["strategy"]])
+    kw = rfa_kwargs(c)
+    obj = cls(x, y, c["n"], **kw)
+    seen = set()
+    if "exp" in kw:      # observe the exponent reaching the shape functions (module-level names rebound from outside)
+        saved = (rfa_mod.lin_exp_xy_fit, rfa_mod.exp_lin_fit)
+
+        def wrap(f):
+            def g(*a, **k):
+                seen.add(tuple(bits3(k.get("alpha", a[3] if len(a) > 3 else 2))))
+                return f(*a, **k)
+            return g
+        rfa_mod.lin_exp_xy_fit, rfa_mod.exp_lin_fit = wrap(saved[0]), wrap(saved[1])
+        try:
+            xs, ys = obj.rfa()
+        finally:
+            rfa_mod.lin_exp_xy_fit, rfa_mod.exp_lin_fit = saved
+        c["_fit_exps"] = sorted(list(t) for t in seen)
+        c["_exp_bits"] = bits3(kw["exp"])
+    else:
+        xs, ys = obj.rfa()
+    als, ars = [], []
+    if c["strategy"] in ("LinearAdaptive", "ExpAdaptive"):
+        xi = IntervalArray(sau.oversample_linspace(np.asarray(x, dtype=float), c["n"]), c["n"])
+        yi = IntervalArray(sau.oversample_piecewise_constant(np.asarray(y, dtype=float), c["n"]), c["n"])
+        xi.extend_linspace(direction="both")
+        yi.extend_constant(direction="both")
+        als, ars, _ = rfa_mod.LinearAdaptiveRFA.get_adaptive_transition_points(xi, yi, obj.a, obj.adaptive_smooth)
+        als, ars = [int(v) for v in als], [int(v) for v in ars]
+    return xs, ys, als, ars
+
+
+def ex_rfa(c):
+    x, y = arr(c["x"], c.get("container", "array")), arr(c["y"], c.get("container", "array"))
+    c = dict(c)
+    oc, o = guarded(lambda: rfa_run(c, x, y))
+    e = dict(c)
+    e["fit_exps"] = e.pop("_fit_exps", [])
+    e["exp_bits"] = e.pop("_exp_bits", [0, 0, 0])
+    if oc == "ok":
+        xs, ys, als, ars = o
+        kx, ky = kind(xs), kind(ys)
+        xv = np.asarray(xs, dtype=float).ravel() if kx.startswith("ndarray") or kx == "list" else np.array([])
+        e.update(outcome="ok", kind=kx if kx == ky else kx + "/" + ky, outx=vec(xs), outy=vec(ys), als=als, ars=ars,
+                 xbits=[bits3(v) for v in np.asarray(x, dtype=float)],
+                 nthbits=[bits3(v) for v in (xv[::c["n"]] if len(xv) else [])])
+    else:
+        e.update(outcome=oc, kind="none", outx=[], outy=[], als=[], ars=[], xbits=[], nthbits=[])
+    return e
+
+
+def ex_rfa_reject(c):
+    x, y = arr(c["x"]), arr(c["y"])
+    cls = getattr(rfa_mod, RFA_CLASSES[c["strategy"]])
+    oc, _ = guarded(lambda: cls(x, y, c["n_f"] if "n_f" in c else c["n"]).rfa())
+    e = dict(c)
+    e["outcome"] = oc
+    return e
+
+
+import traffic_weaver.funfit as ff  # noqa: E402
+
+FIT_NAMES = ["lin", "exp", "exp_xy", "exp_lin", "lin_exp_xy"]
+
+
+def ex_funfit(c):
+    x0, x1, x, y0, y1 = (fl(c[k]) for k in ("x0", "x1", "x", "y0", "y1"))
+    ex = c["e_f"] if "e_f" in c else fl(c["e"])
+
+    def at(xv):
+        r = {}
+        for name in FIT_NAMES:
+            f = getattr(ff, name + "_fit")
+            r[name] = fx(f(xv, (x0, y0), (x1, y1)) if name == "lin" else f(xv, (x0, y0), (x1, y1), ex))
+        return r
+    oc, o = guarded(lambda: (at(x0), at(x), at(x1)))
+    e = dict(c)
+    z = {n: [5, 0, 0] for n in FIT_NAMES}
+    e.update(outcome=oc, at0=o[0] if o else z, at=o[1] if o else z, at1=o[2] if o else z)
+    return e
+
+
+EXECUTORS.update({"rfa": ex_rfa, "rfa_reject": ex_rfa_reject, "funfit": ex_funfit})
